@@ -26,7 +26,7 @@ TINY = 1e-200     # absolute floor: below this, underflow (denormal points next 
 def cases(tier, seed):
     from verif.gen import rng_for, knot_case
     variant = os.environ.get('VERIF_VARIANT', 'plain')
-    n = {'quick': 320, 'thorough': 6000}[tier]
+    n = {'quick': 320, 'thorough': 20000}[tier]
     if variant != 'plain':
         n = 600
     for i in range(n):
